@@ -300,6 +300,11 @@ where
             .entry(Arc::clone(&key))
             // Update
             .and_modify(|entry| {
+                // A switch point while the shard is write-locked (only taken when the
+                // simulator asks for it): maintenance and other clients that need this
+                // shard are parked by their map probes until the closure returns.
+                #[cfg(mini_moka_verif)]
+                crate::verif::sp_locked("insert.in_map");
                 // NOTES on `new_value_entry_from` method:
                 // 1. The internal EntryInfo will be shared between the old and new
                 //    ValueEntries.
@@ -314,9 +319,13 @@ where
                     old_weight,
                     new_weight: weight,
                 });
+                #[cfg(mini_moka_verif)]
+                crate::verif::sp_locked("insert.in_map_updated");
             })
             // Insert
             .or_insert_with(|| {
+                #[cfg(mini_moka_verif)]
+                crate::verif::sp_locked("insert.in_map");
                 let entry = self.new_value_entry(value.clone(), ts, weight);
                 insert_op = Some(WriteOp::Upsert {
                     key_hash: KeyHash::new(Arc::clone(&key), hash),
@@ -560,6 +569,8 @@ where
         Arc<K>: Borrow<Q>,
         Q: Hash + Eq + ?Sized,
     {
+        #[cfg(mini_moka_verif)]
+        crate::verif::map_probe(&|| self.cache.try_get(key).is_locked());
         self.cache.get(key)
     }
 
@@ -890,6 +901,8 @@ where
         // whatever entry the map holds for the key *now*, or leave deque nodes and
         // counters for an entry that the map does not hold. (A later update of the
         // same incarnation shares its EntryInfo, so this op still applies in order.)
+        #[cfg(mini_moka_verif)]
+        crate::verif::map_probe(&|| self.cache.try_get(&kh.key).is_locked());
         let current_key = self
             .cache
             .get(&kh.key)
@@ -943,6 +956,7 @@ where
                 .iter()
                 .any(|n| {
                     let elem = &unsafe { n.as_ref() }.element;
+                    crate::verif::map_probe(&|| self.cache.try_get(elem.key()).is_locked());
                     !self
                         .cache
                         .get(elem.key())
@@ -1035,6 +1049,8 @@ where
                 for node in &s {
                     // What an updated victim occupies is known already.
                     let elem = unsafe { &node.as_ref().element };
+                    #[cfg(mini_moka_verif)]
+                    crate::verif::map_probe(&|| self.cache.try_get(elem.key()).is_locked());
                     if let Some(e) = self
                         .cache
                         .get(elem.key())
@@ -1120,6 +1136,8 @@ where
             // stay where they are, so that the size-based eviction meets them first
             // and does not evict live entries on their behalf.
             let elem = unsafe { &node.as_ref().element };
+            #[cfg(mini_moka_verif)]
+            crate::verif::map_probe(&|| self.cache.try_get(elem.key()).is_locked());
             let gone = !self
                 .cache
                 .get(elem.key())
@@ -1175,6 +1193,8 @@ where
                 next_victim = DeqNode::next_node_ptr(victim);
                 let vic_elem = &unsafe { victim.as_ref() }.element;
 
+                #[cfg(mini_moka_verif)]
+                crate::verif::map_probe(&|| cache.try_get(vic_elem.key()).is_locked());
                 if let Some(vic_entry) = cache
                     .get(vic_elem.key())
                     .filter(|v| std::ptr::eq(&**v.entry_info(), vic_elem.entry_info()))
@@ -1401,6 +1421,8 @@ where
         deq: &mut Deque<KeyHashDate<K>>,
         write_order_deq: &mut Deque<KeyDate<K>>,
     ) -> bool {
+        #[cfg(mini_moka_verif)]
+        crate::verif::map_probe(&|| self.cache.try_get(key).is_locked());
         if let Some(entry) = self
             .cache
             .get(key)
@@ -1560,6 +1582,8 @@ where
             // removal op is not applied yet) still counts in the weighted size, but its
             // weight is about to be given back: do not evict live entries on its behalf.
             if let Some(((key, info), _, _)) = &maybe_key_and_ts {
+                #[cfg(mini_moka_verif)]
+                crate::verif::map_probe(&|| self.cache.try_get(&**key).is_locked());
                 let gone = !self
                     .cache
                     .get(&**key)
@@ -1685,6 +1709,8 @@ where
                 live_seen = true;
                 continue;
             }
+            #[cfg(mini_moka_verif)]
+            crate::verif::map_probe(&|| self.cache.try_get(elem.key()).is_locked());
             let is_gone = !self
                 .cache
                 .get(elem.key())
